@@ -291,6 +291,39 @@ fn bracket_depth(e: &E) -> usize {
     own + children(e).into_iter().map(|(_, c)| bracket_depth(c)).max().unwrap_or(0)
 }
 
+/// What counts as true, for every kind and every representation of a value (the documentation: false, none/undefined,
+/// zero, and empty strings/arrays/maps are falsy), through every construct that branches on a value.
+fn truthiness_matrix(cx: &mut Cx) {
+    cx.begin_case(0, "truthiness-matrix");
+    let src = "{{ not v }}|{% if v %}T{% else %}F{% endif %}|{{ 1 if v else 2 }}|{% if v and true %}T{% else %}F{% endif %}|{% if v or false %}T{% else %}F{% endif %}|{{ v | default(value=\"D\", boolean=true) == \"D\" }}|{% if not v %}N{% elif v %}E{% endif %}|{{ [1 for q in [1] if v] | length }}";
+    let mut t = Tera::default();
+    if let Err(e) = t.add_raw_template("tr", src) {
+        cx.violation("C02/truthiness-template-rejected", format!("{e}"), json!({"template": src}));
+        return;
+    }
+    let mut pool = crate::values::kind_pool();
+    for extra in [crate::values::V::I128(0), crate::values::V::U128(0), crate::values::V::U64(0), crate::values::V::I128(-1), crate::values::V::U128(1), crate::values::V::I128(1 << 100), crate::values::V::F64(-0.0), crate::values::V::F64(f64::NAN), crate::values::V::F64(f64::MIN_POSITIVE)] {
+        pool.push(extra);
+    }
+    for v in &pool {
+        if matches!(v, crate::values::V::Undef) {
+            continue;
+        }
+        let tr = crate::model::truthy(v);
+        let mut c = Context::new();
+        c.insert_value("v", v.to_tera());
+        cx.eval();
+        cx.count("truthiness_cells", 1);
+        cx.cell(format!("truthiness|{}|{tr}", v.kind()));
+        let exp = format!("{}|{}|{}|{}|{}|{}|{}|{}", !tr, if tr { "T" } else { "F" }, if tr { 1 } else { 2 }, if tr { "T" } else { "F" }, if tr { "T" } else { "F" }, !tr, if tr { "E" } else { "N" }, if tr { 1 } else { 0 });
+        match guard(|| t.render("tr", &c).map_err(|e| e.to_string())) {
+            Ok(Ok(o)) if o == exp => {}
+            Ok(o) => cx.violation(&format!("C02/truthiness/{}", v.kind()), format!("{:?} (documented as {}): not|if|ternary|and|or|default(boolean)|elif|comprehension-if gave {o:?}, expected {exp:?}", v.tagged(), if tr { "truthy" } else { "falsy" }), json!({"value": v.tagged(), "template": src})),
+            Err(p) => cx.violation(&format!("C02/panic/{}", panic_site(&p)), format!("truthiness of {:?} panicked: {p}", v.tagged()), json!({"value": v.tagged()})),
+        }
+    }
+}
+
 pub fn run(cx: &mut Cx) {
     let mut t = Tera::default();
     t.register_function("probe", |kw: Kwargs, _: &State| -> TeraResult<Value> {
@@ -316,6 +349,9 @@ pub fn run(cx: &mut Cx) {
     let nmatrix = matrix.len() as u64;
     let total = nmatrix + cx.total(400_000, 10_000_000);
     for case in cx.my_cases(total) {
+        if case == 0 {
+            truthiness_matrix(cx);
+        }
         let mut r = R(cx.rng(case));
         let (e, family, cellname): (E, &str, Option<String>) = if case < nmatrix {
             let (name, e) = &matrix[case as usize];
